@@ -1,5 +1,6 @@
 import Rp2.Proofs.ReportLinks
 import Rp2.Proofs.ReportProps
+import Rp2.Proofs.SummaryLinks
 /-! # C19 — hyperlinks in the full report lead to the row of the same transaction -/
 namespace Rp2.C19
 open Rp2
@@ -15,4 +16,19 @@ theorem model_dictionary_is_per_asset (holderOf : Nat → String) (period : Int)
 theorem model_links_lead_to_own_row (c : Computed) (hnd : ((shownRows c).map (·.1)).Nodup) :
     (∀ p ∈ shownRows c, lookupI p.1 (txRowFrom [] c) = some p.2) ∧
     (∀ id, id ∉ (shownRows c).map (·.1) → lookupI id (txRowFrom [] c) = none) := txRow_spec c hnd
+/-- **Summary clause, on the full-report model**: if the years of an asset's detail rows never go back (hypothesis LocalDatesMonotone —
+    finding F15 is what happens otherwise) and the asset has not been written before, the (asset, year) dictionary from which the Summary
+    links are taken sends every year that has a detail row to the first detail row of that year, and keeps the other assets' entries -/
+theorem model_summary_links_first_row_of_year (cpa : Bool) (holderOf : Nat → String) (period : Int) (st : GenState) (c : Computed)
+    (hmono : (detailYears c).Pairwise (· ≤ ·)) (hpos : ∀ y ∈ detailYears c, 0 < y)
+    (hfresh : ∀ y, aget st.yearRow (c.asset, y) = none) :
+    (∀ y ∈ detailYears c, aget (layoutAsset cpa holderOf period st c).state.yearRow (c.asset, y) =
+        (firstIdx y (detailYears c)).map (fun i => (layoutAsset cpa holderOf period st c).dStart + i + 1)) ∧
+    (∀ a y, a ≠ c.asset → aget (layoutAsset cpa holderOf period st c).state.yearRow (a, y) = aget st.yearRow (a, y)) :=
+  layout_summary_links cpa holderOf period st c hmono hpos hfresh
+/-- non-vacuity of the hypotheses and the shape of the conclusion on a concrete list of years: 2020, 2020, 2021, 2023 from row index 0 -/
+example : (aget (yearRowsFrom "B1" 30 0 0 [] [2020, 2020, 2021, 2023]) ("B1", 2021), aget (yearRowsFrom "B1" 30 0 0 [] [2020, 2020, 2021, 2023]) ("B1", 2020),
+    aget (yearRowsFrom "B1" 30 0 0 [] [2020, 2020, 2021, 2023]) ("B1", 2022)) = (some 33, some 31, none) := by decide
+/-- … and what finding F15 looks like: years 2022, 2021, 2022 send 2022 to the third row, not the first -/
+example : aget (yearRowsFrom "B1" 30 0 0 [] [2022, 2021, 2022]) ("B1", 2022) = some 33 := by decide
 end Rp2.C19
